@@ -397,12 +397,91 @@ func (d *c17DS) meta() c17Meta {
 	return m
 }
 
+// committed draws the annotate-style "committed at" time of an element: absent, or an instant
+// that differs from the element's timestamp (the meta timestamp is the element's Timestamp).
+func (d *c17DS) committed(ts time.Time) *time.Time {
+	if !d.r.Chance(0.4) {
+		return nil
+	}
+	t := d.r.Time()
+	for t.Equal(ts) {
+		t = d.r.Time()
+	}
+	return &t
+}
+
+// updates draws annotate-style updates (later node / member versions) for an element with n
+// children; they describe history, not the element's own meta data or current geometry.
+func (d *c17DS) updates(n int) osm.Updates {
+	if n == 0 || !d.r.Chance(0.2) {
+		return nil
+	}
+	var us osm.Updates
+	for i, k := 0, d.r.Range(1, 2); i < k; i++ {
+		p := d.newCoord()
+		us = append(us, osm.Update{Index: d.r.Intn(n), Version: d.r.Range(1, 9), Timestamp: d.r.Time(),
+			ChangesetID: osm.ChangesetID(d.r.Int64Range(1, 1<<30)), Lon: p[0], Lat: p[1], Reverse: d.r.Bool()})
+	}
+	return us
+}
+
+// c17MetaMatrix: node, way and route relation with EVERY meta-ish field set to a distinguishable
+// value (version, changeset, uid, user, timestamp, committed, visible=false, updates) in three
+// variants: timestamp and a different committed time; committed only; timestamp only.
+func c17MetaMatrix() []*c17DS {
+	var out []*c17DS
+	at := func(s string) time.Time {
+		t, err := time.Parse(time.RFC3339, s)
+		if err != nil {
+			panic(err)
+		}
+		return t
+	}
+	for _, variant := range []string{"timestamp+committed", "committed-only", "timestamp-only"} {
+		d := c17NewDS(1, "metamatrix/"+variant)
+		ts := func(s string) time.Time {
+			if variant == "committed-only" {
+				return time.Time{}
+			}
+			return at(s)
+		}
+		cm := func(s string) *time.Time {
+			if variant == "timestamp-only" {
+				return nil
+			}
+			t := at(s)
+			return &t
+		}
+		d.o.Nodes = osm.Nodes{
+			{ID: 1, Lat: 47.1, Lon: 8.1, Version: 7, ChangesetID: 1234, UserID: 42, User: "alice", Visible: false,
+				Timestamp: ts("2014-03-02T10:00:00Z"), Committed: cm("2014-03-02T10:00:09Z"), Tags: osm.Tags{{Key: "amenity", Value: "bench"}}},
+			{ID: 2, Lat: 47.2, Lon: 8.2, Version: 3, ChangesetID: 2345, UserID: 43, User: "bob", Visible: true,
+				Timestamp: ts("2015-04-03T11:00:00Z"), Committed: cm("2015-04-03T11:00:07Z"), Tags: osm.Tags{{Key: "name", Value: "x"}}},
+			{ID: 3, Lat: 47.3, Lon: 8.3, Version: 4, ChangesetID: 3456, UserID: 44, User: "carol", Visible: true,
+				Timestamp: ts("2016-05-04T12:00:00Z"), Committed: cm("2016-05-04T12:00:05Z")},
+		}
+		d.o.Ways = osm.Ways{{ID: 5, Version: 9, ChangesetID: 4567, UserID: 45, User: "dave", Visible: false,
+			Timestamp: ts("2017-06-05T13:00:00Z"), Committed: cm("2017-06-05T13:00:03Z"),
+			Tags:    osm.Tags{{Key: "highway", Value: "path"}},
+			Nodes:   osm.WayNodes{{ID: 2}, {ID: 3}},
+			Updates: osm.Updates{{Index: 1, Version: 5, Timestamp: at("2018-01-01T00:00:00Z"), ChangesetID: 9999, Lat: 47.31, Lon: 8.31}}}}
+		d.o.Relations = osm.Relations{{ID: 9, Version: 11, ChangesetID: 5678, UserID: 46, User: "erin", Visible: false,
+			Timestamp: ts("2019-07-06T14:00:00Z"), Committed: cm("2019-07-06T14:00:01Z"),
+			Tags:    osm.Tags{{Key: "type", Value: "route"}, {Key: "route", Value: "hiking"}},
+			Members: osm.Members{{Type: osm.TypeWay, Ref: 5, Role: "", Version: 9, ChangesetID: 4567}},
+			Updates: osm.Updates{{Index: 0, Version: 10, Timestamp: at("2020-01-01T00:00:00Z"), ChangesetID: 8888}}}}
+		d.wayCls["open"], d.relCls["route"] = true, true
+		out = append(out, d)
+	}
+	return out
+}
+
 // addNode adds a node. loc: "loc" (non-zero coordinates), "lat0" (lat 0, lon non-zero),
 // "unloc" (no coordinates: lat=lon=0, version 0), "origin" (lat=lon=0 with a version).
 func (d *c17DS) addNode(loc, tagClass string) *osm.Node {
 	m := d.meta()
 	n := &osm.Node{ID: osm.NodeID(d.newID(d.usedN)), Version: m.version, ChangesetID: m.cs, UserID: m.uid, User: m.user,
-		Timestamp: m.ts, Visible: d.r.Bool(), Tags: d.tags(tagClass, false)}
+		Timestamp: m.ts, Committed: d.committed(m.ts), Visible: d.r.Bool(), Tags: d.tags(tagClass, false)}
 	switch loc {
 	case "loc":
 		p := d.newCoord()
@@ -436,7 +515,7 @@ func (d *c17DS) missingNode() int64 {
 func (d *c17DS) addWay(refs []int64, tags osm.Tags) *osm.Way {
 	m := d.meta()
 	w := &osm.Way{ID: osm.WayID(d.newID(d.usedW)), Version: m.version, ChangesetID: m.cs, UserID: m.uid, User: m.user,
-		Timestamp: m.ts, Visible: d.r.Bool(), Tags: tags}
+		Timestamp: m.ts, Committed: d.committed(m.ts), Visible: d.r.Bool(), Tags: tags, Updates: d.updates(len(refs))}
 	for _, id := range refs {
 		w.Nodes = append(w.Nodes, osm.WayNode{ID: osm.NodeID(id)})
 	}
@@ -736,7 +815,7 @@ func (d *c17DS) role() string {
 func (d *c17DS) addRelation(tags osm.Tags, members osm.Members) *osm.Relation {
 	m := d.meta()
 	rel := &osm.Relation{ID: osm.RelationID(d.newID(d.usedR)), Version: m.version, ChangesetID: m.cs, UserID: m.uid, User: m.user,
-		Timestamp: m.ts, Visible: d.r.Bool(), Tags: tags, Members: members}
+		Timestamp: m.ts, Committed: d.committed(m.ts), Visible: d.r.Bool(), Tags: tags, Members: members, Updates: d.updates(len(members))}
 	d.o.Relations = append(d.o.Relations, rel)
 	return rel
 }
@@ -988,13 +1067,14 @@ func (d *c17DS) multipolygon() {
 			}
 		}
 		sort.Float64s(angs)
-		// no gap of pi or more, so that the centre is strictly inside
+		// no angular gap above 135 degrees: with vertex radii >= 0.7 rad every edge then stays
+		// farther than 0.268 rad from the centre, so a hole of radius <= 0.25 rad lies inside
 		for i := range angs {
 			next := angs[(i+1)%k]
 			if i == k-1 {
 				next += 2 * math.Pi
 			}
-			if next-angs[i] >= math.Pi-0.1 {
+			if next-angs[i] > 0.75*math.Pi {
 				angs = nil
 				for j := 0; j < k; j++ {
 					angs = append(angs, (float64(j)+0.2+0.5*r.Float64())*2*math.Pi/float64(k))
@@ -1064,7 +1144,18 @@ func (d *c17DS) multipolygon() {
 		d.relCls["mp-2outer"] = true
 	}
 	if r.Chance(0.45) {
-		inner := ring(r.Range(3, 5), 0.1, 0.3)
+		inner := ring(r.Range(3, 5), 0.1, 0.25)
+		// the generator's own containment test: a multipolygon offered as valid must be valid
+		var oring []c17Pt
+		for _, id := range outer {
+			n := d.nodeByID(id)
+			oring = append(oring, c17Pt{n.Lon, n.Lat})
+		}
+		for _, id := range inner {
+			if n := d.nodeByID(id); !c17InRing(c17Pt{n.Lon, n.Lat}, oring) {
+				panic("C17 harness: generated hole vertex outside its outer ring")
+			}
+		}
 		w := d.addWay(append(append([]int64{}, inner...), inner[0]), wtags(r.PickS("none", "none", "area", "boring")))
 		if c17Interesting(w.Tags) {
 			d.area[w.ID] = true
@@ -1078,6 +1169,28 @@ func (d *c17DS) multipolygon() {
 		m := d.nodeMember(0.1)
 		m.Role = r.PickS("admin_centre", "label", "")
 		ms = append(ms, m)
+	}
+	if r.Chance(0.2) {
+		// Overpass "out geom" shape on top of complete data: the way members also carry their
+		// path as member nodes (agreeing with the ways and nodes of the data set)
+		for i := range ms {
+			if ms[i].Type != osm.TypeWay {
+				continue
+			}
+			for _, w := range d.o.Ways {
+				if int64(w.ID) != ms[i].Ref {
+					continue
+				}
+				for _, wn := range w.Nodes {
+					mn := osm.WayNode{ID: wn.ID}
+					if n := d.nodeByID(int64(wn.ID)); n != nil {
+						mn.Lat, mn.Lon = n.Lat, n.Lon
+					}
+					ms[i].Nodes = append(ms[i].Nodes, mn)
+				}
+			}
+		}
+		d.relCls["mp-member-nodes+ways"] = true
 	}
 	typ := r.PickS("multipolygon", "multipolygon", "boundary")
 	fixed := []osm.Tag{{Key: "type", Value: typ}}
@@ -1703,6 +1816,18 @@ func c17TinyRandom(seed uint64) *c17DS {
 		d.tinyWay(lon, lat, pts, r.Bool(), r.Intn(7), fmt.Sprintf("tiny-random/box%d", box))
 	}
 	return d
+}
+
+// c17InRing: even-odd test of p against the open ring (the generator's own containment test).
+func c17InRing(p c17Pt, ring []c17Pt) bool {
+	in := false
+	for i, j := 0, len(ring)-1; i < len(ring); j, i = i, i+1 {
+		a, b := ring[i], ring[j]
+		if (a[1] > p[1]) != (b[1] > p[1]) && p[0] < (b[0]-a[0])*(p[1]-a[1])/(b[1]-a[1])+a[0] {
+			in = !in
+		}
+	}
+	return in
 }
 
 // c17Open strips the closing point of a closed sequence.
@@ -2770,6 +2895,12 @@ func c17Exec(c fw.Case) *fw.Result {
 		}
 		d := c17Random(c.Seed, int(c.Int("size")), rw, int(c.Int("routes")))
 		c17Check(res, d)
+	case "metamatrix":
+		ds := c17MetaMatrix()
+		for _, d := range ds {
+			c17Check(res, d)
+		}
+		res.Sample = map[string]any{"datasets": len(ds), "first": res.Sample}
 	case "wnmatrix":
 		ds := c17WayNodeMatrix()
 		for _, d := range ds {
@@ -2842,7 +2973,7 @@ func init() {
 				cs = append(cs, fw.Case{Kind: "random", Seed: gen.Sub(seed, "c17", i), P: map[string]int64{"size": size, "rw": rw, "routes": routes}})
 			}
 			cs = append(cs, c17InvalidCases(tier, seed)...)
-			cs = append(cs, fw.Case{Kind: "tinytable", Seed: 1}, fw.Case{Kind: "wnmatrix", Seed: 1})
+			cs = append(cs, fw.Case{Kind: "tinytable", Seed: 1}, fw.Case{Kind: "wnmatrix", Seed: 1}, fw.Case{Kind: "metamatrix", Seed: 1})
 			tiny := 40
 			if tier == "thorough" {
 				tiny = 1000
